@@ -345,6 +345,49 @@ def used_after_failure(fn, check_term, use_blocks):
     return any(b in reach for b in use_blocks)
 
 
+def is_identity_rewrap(fn, call_term, err_ctor_ok=False):
+    """The Result of `call_term` is what the function returns, spelled `match r { Ok(v) => Ok(v), Err(e) => Err(e) }` (the long form of
+    returning `r`; with err_ctor_ok also `Err(e) => Err(Wrap(e))`, the long form of `.map_err(Wrap)`): every assignment to the return
+    place is an `Ok` / `Err` aggregate whose payload is the corresponding payload of the call's result."""
+    if len(call_term["dest"]) != 1:
+        return False
+    d = call_term["dest"][0]
+    als = set(forward_aliases(fn, d, limit=20))
+    found = 0
+    after = fn.reachable(call_term["to"]) if call_term.get("to") is not None else set()
+    for b_i, b in enumerate(fn.blocks):
+        if b.get("cleanup") or b_i not in after:
+            continue            # what is returned on paths that never made the call is not this call's business
+        for st in b["s"]:
+            if st[0] != "=" or st[1] != [0]:
+                continue
+            rv = st[2]
+            if rv[0] == "use" and rv[1][0] != "k" and rv[1][1][0] in als and len(rv[1][1]) == 1:
+                found += 1
+                continue
+            if rv[0] != "agg" or rv[1].get("vname") not in ("Ok", "Err") or len(rv[2]) != 1 or rv[2][0][0] == "k":
+                return False
+            want = "d0:Ok" if rv[1]["vname"] == "Ok" else "d1:Err"
+            op = rv[2][0]
+            o = fn.origin(op)
+            if err_ctor_ok and rv[1]["vname"] == "Err" and o[0] == "agg" and len(o[2]) == 1 and o[2][0][0] != "k":
+                o = fn.origin(o[2][0])          # Err(Wrap(e))
+            pl = o[1] if o[0] == "place" and o[1] else (op[1] if o[0] in ("place",) else None)
+            if pl is None:
+                # a plain copy chain of the payload: follow single definitions
+                cur = op
+                for _ in range(6):
+                    sd = fn.single_def(cur[1][0]) if cur[0] != "k" else None
+                    if sd is None or sd[2][0] != "use" or sd[2][1][0] == "k":
+                        break
+                    cur = sd[2][1]
+                pl = cur[1] if cur[0] != "k" else None
+            if not pl or pl[0] not in als or want not in [str(x) for x in pl[1:]]:
+                return False
+            found += 1
+    return found > 0
+
+
 def leaf_calls(fn, operand, limit=40):
     """names of all calls the operand's value is computed from, following every argument of every call on the way back
     (an over-approximation of "derives from"; loop-carried iterators are followed through their single definition)"""
